@@ -164,7 +164,13 @@ def components(rng, quick):
     # memoryless modems: members are bit groups (modulators) / received symbols (demodulators)
     for nm, mod, dem, b in (("QPSK", lambda: M.QPSKModulator(), lambda: M.QPSKDemodulator(), 2), ("PSK8", lambda: M.PSKModulator(order=8), lambda: M.PSKDemodulator(order=8), 3),
                             ("QAM16", lambda: M.QAMModulator(order=16), lambda: M.QAMDemodulator(order=16), 4), ("PAM4", lambda: M.PAMModulator(order=4), lambda: M.PAMDemodulator(order=4), 2),
-                            ("BPSK", lambda: M.BPSKModulator(), lambda: M.BPSKDemodulator(), 1)):
+                            ("BPSK", lambda: M.BPSKModulator(), lambda: M.BPSKDemodulator(), 1),
+                            # documented options and construction forms: real-valued BPSK, unnormalised / binary-labelled tables, registry names
+                            ("BPSK(complex_output=False)", lambda: M.BPSKModulator(complex_output=False), lambda: M.BPSKDemodulator(), 1),
+                            ("BPSK(registry,complex_output=False)", lambda: M.ModulationRegistry.create_modulator("bpskmodulator", complex_output=False),
+                             lambda: M.ModulationRegistry.create_demodulator("bpskdemodulator"), 1),
+                            ("QAM16(binary,unnormalised)", lambda: M.QAMModulator(16, False, False), lambda: M.QAMDemodulator(16, False, False), 4),
+                            ("PAM8(unnormalised)", lambda: M.PAMModulator(order=8, normalize=False), lambda: M.PAMDemodulator(order=8, normalize=False), 3)):
         C.append(Comp(nm + "Modulator", nm + "Modulator", mod, [bitsv(v, b) for v in ([0, 1] if b == 1 else [0, 1, (1 << b) - 1, 2])], three_d=False))
         syms = [torch.tensor([complex(rng.uniform(-1.2, 1.2), rng.uniform(-1.2, 1.2))], dtype=torch.complex64) for _ in range(4)]
         C.append(Comp(nm + "Demodulator(hard)", nm + "Demodulator", dem, syms, three_d=False))
